@@ -367,54 +367,123 @@ char[] body`" ++ [28040; 24687; 31867; 22411]%N ++ runes_of_ascii "` ,
 zchar[ 42] trueish `
 ` , float trueish,  metadata //x
 o `{ , }`, }")).
-Eval vm_compute in ("<<<M1899>>>" ++ check (runes_of_ascii "options {
-    matchKey = ""x y"";
-    MetaDataX = '0';
+Eval vm_compute in ("<<<M1343>>>" ++ check (runes_of_ascii "  options { 
+StringPrefixLenType
+= u64
+
+; ArrayPrefixLenType=	u32
+    ;  FixedStringPadFromLeft =
+    false
+;
+    } packet
+Party{ 
+zchar[
+7]OrderId
+, InTail6{
+
+    repeat
+char[
+1  ] 
+msgKind	,char[
+
+    3]
+Tail ,char[ 
+3 ]
+
+    Flags	,
+i16
+tag7	, 
 }
 
-packet msg_type {
-    @rightPad(' ')
-    repeat u128 body,
-    match body as pack {
-        [""\" ++ [233]%N ++ runes_of_ascii """, ""1""] : BodyLength,
-        [
-            255, 007, 007, 0123456789, ""a	b"",
-            ""a\\"", ""{,}""
-        ] : options1,
-    },
-    @leftPad()
-    @lengthOf(charz)
-    @tag(42)
-    o {
-        i32 msg_type @lengthOf(A) `doc`,
-        zchar[1] charz,// c
-        i8 packetx `{ , }`,
-        msg_type `crlf
-        line`,
-    },
-    @calculatedFrom(""\" ++ [233]%N ++ runes_of_ascii """)
-    Z9_ @calculatedFrom(""" ++ [128512]%N ++ runes_of_ascii """) `tab	here`,
-    repeat char[] Foo,
-    repeat zchar[0123456789] u128,
-}
+,@rightPad
 
-packet f32a {
-    f32a @lengthOf(matchKey),
-    @rightPad(' ')
-    @lengthOf(chars)
-    _x Foo ``,
-    match body as body {
-        [
-            4294967296, 3, 0123456789,
-            ""packet"", """ ++ [128512]%N ++ runes_of_ascii """
-        ] : T,
-        [""a\\""] : T,
-        ""\n"" : u8x,
-    },
-}//x
+    ('0'
+)
 
-root packet lengthOf {
-}")).
+    char[
+
+12 ]clOrdID
+	,}
+	packet	Quote
+    {@leftPad
+('0' 
+)
+    char[
+	11]
+price ,repeat  InCount7  { i32
+    x
+,Party,u8  Ref
+
+    , u8 tag7
+, 
+} ,
+	char[]	seqNo
+	,
+
+    Party, } packet  Logon
+{@rightPad(
+
+    '\x00'
+	)
+char[
+    5
+
+]
+	Note,
+
+i16
+    sym
+
+    ,InPrice72{char[	9 ]  Ref
+, zchar[ 1 ]
+    venue , } ,
+    char[]
+
+    clOrdID 
+,	}
+	root
+packet
+Reject {
+    repeat Logon
+
+,
+@leftPad	( ' '
+	)
+    char[
+4
+] seqNo,
+zchar[ 5]
+    Acct
+
+    ,
+	u32
+
+    x,
+    u16
+	f1	@lengthOf(
+
+Body )	, match
+
+x
+
+as
+Body
+{
+[169,	74
+	] 
+:
+Quote
+, 
+45 :
+Party,7
+
+:
+
+    Logon 
+, }
+
+    , }
+")).
 Eval vm_compute in ("<<<M1362>>>" ++ check (runes_of_ascii "options {
     FixedStringPadFromLeft = true;
     FixedStringPadChar = '0';
@@ -710,75 +779,38 @@ lastPx as	Body{
 	)
 
     , }")).
-Eval vm_compute in ("<<<M1874>>>" ++ check (runes_of_ascii "options {
-	LittleEndian
-=
-	true
-	;
-
-    StringPrefixLenType =	u64  ; ArrayPrefixLenType
-
-= 
-u16
-
-; 
-FixedStringPadFromLeft	=	false
-
-; 
-FixedStringPadChar
-
-=  ' '; 
-}
-packet
-Logon{zchar[
-5
-
-    ] Side2 
+Eval vm_compute in ("<<<M210>>>" ++ check (runes_of_ascii "MetaData tag {
+//
+//
+char[// a // b
+3 ] // a // b
+msg_type
+    // c
+    , char[7 ] options1
 ,
-}
-    root	packet  Logout
-{
-
-    repeat
-i64
-Tail
-
-    ,
-	Logon
-    ,
-	repeat
-
-i16
-
-    OrderId,
-
-    char[]venue
+    // trailing space 
+    float crc
+,calculatedFrom pack ,int64 u  `a\`,}
+packet leftPad{char[
+    1
+]
+    /// triple
+    zchar
 ,
-	uint64
-
-    x, 
-repeat
-i16
-
-count	,
-
-    u8
-
-Flags,match Flags
-as
-Body {
-25
-: Logon
-
-    ,
-}
-, u16
-	Qty @calculatedFrom(
-    ""CR\
-C32""
-	)	,
-
-    }")).
+    //
+    } packet crc { // c
+@lengthOf( packetx	) @lengthOf( asx)
+@lengthOf( packetx ) calculatedFrom {	f32 packetx	``
+// packet A { u8 x, }
+//x
+, },
+} options { Z9_
+= ""\" ++ [233]%N ++ runes_of_ascii """
+    // a // b
+    float = ' ' ; packetx = ""x y""
+    calculatedFrom  = int16
+    ;
+}")).
 Eval vm_compute in ("<<<M161>>>" ++ check (runes_of_ascii "packet rootA{ options1 _x , u64
     Header , } packet lengthOf {
     @rightPad ( ' '	)
@@ -921,37 +953,22 @@ B ,
     C , }
 
 ")).
-Eval vm_compute in ("<<<M1559>>>" ++ check (runes_of_ascii "
-root 	 // trailing space 
-packet
-	int {
-    f32a
-	@calculatedFrom( ""packet""
-
+Eval vm_compute in ("<<<M89>>>" ++ check (runes_of_ascii "packet Foo // " ++ [128512]%N ++ runes_of_ascii " emoji
+{@lengthOf( f32a )
+char[
+0123456789 //	t
+] float `u8 x,` ,}
+    packet // a // b
+i64_ {@lengthOf(stringy // packet A { u8 x, }
 )
-
-`
-`
-
-    ,	}
-
-    options
-{
-	rootA
-// @lengthOf(
-	= ""\" ++ [233]%N ++ runes_of_ascii """ ;
-    }packet i8i8
-    {
-	// trailing space 
-uint8
-uint8x @lengthOf(
-    string_	)//	t
-    ,
-i32  tag //	t
-@lengthOf(
-	Logon 
-),
-    }")).
+    char[] int @calculatedFrom(""{,}"" ) ,@tag(
+007 ) //
+int64
+stringy`" ++ [233]%N ++ runes_of_ascii "` ,  char[]A @calculatedFrom(
+""\" ++ [233]%N ++ runes_of_ascii """
+    )	`doc` ,// " ++ [27880; 37322]%N ++ runes_of_ascii "
+}
+")).
 Eval vm_compute in ("<<<M1253>>>" ++ check (runes_of_ascii "// top
 packet // c0
 Inner // c1
